@@ -3,6 +3,7 @@ package pass1
 import (
 	"fmt"
 	"log"
+	"math"
 
 	"github.com/HobbyOSs/gosk/internal/ast" // Add ast import
 )
@@ -249,6 +250,12 @@ func processRESB(env *Pass1, operands []ast.Exp) {
 	size := numExp.Value // Value is int64
 	if size < 0 {
 		log.Printf("Error: RESB size cannot be negative (%d).", size)
+		return
+	}
+	if size > math.MaxInt32-int64(env.LOC) {
+		// the location counter is 32 bits wide; a larger reservation cannot be
+		// addressed (and code generation would try to allocate it)
+		log.Printf("error: RESB size %d is too large", size)
 		return
 	}
 
